@@ -1,28 +1,121 @@
 package main
 
 import (
+	"bufio"
 	"flag"
 	"fmt"
 	"math/rand"
+	"os"
+	"os/exec"
+	"strings"
 	"sync"
 	"time"
+
+	"github.com/TarsCloud/TarsGo/tars"
 
 	"github.com/TarsCloud/TarsGo/tars/util/rogger"
 	"github.com/TarsCloud/TarsGo/tars/util/vhook"
 	"verifharness/internal/tr"
 )
 
-func init() { register("logflush-trace", logflushTrace) }
+func init() {
+	register("logflush-trace", logflushTrace)
+	register("logpanic-child", logPanicChild)
+}
 
 // recWriter is a LogWriter that records which entry the flusher hands to it.
-type recWriter struct{ rec **tr.Rec }
+type recWriter struct {
+	rec    **tr.Rec
+	prefix bool // ask the logger for the time|file|level| prefix (text path through writeLine)
+}
+
+// entryOf parses "g i" from the end of a written line (after the last '|' of the prefix, if there is one).
+func entryOf(v []byte) (g, i int) {
+	s := strings.TrimSpace(string(v))
+	if k := strings.LastIndexByte(s, '|'); k >= 0 {
+		s = s[k+1:]
+	}
+	fmt.Sscanf(s, "%d %d", &g, &i)
+	return
+}
 
 func (w *recWriter) Write(v []byte) {
-	var g, i int
-	fmt.Sscanf(string(v), "%d %d", &g, &i)
+	g, i := entryOf(v)
 	(*w.rec).Emit("Write", "g", g, "i", i, "n", len(v))
 }
-func (w *recWriter) NeedPrefix() bool { return false }
+func (w *recWriter) NeedPrefix() bool { return w.prefix }
+
+// ---- the panic exit: a child process logs n entries to a slow file writer and panics under tars.CheckPanic
+type fileWriter struct {
+	f     *os.File
+	pause time.Duration
+}
+
+func (w *fileWriter) Write(v []byte) {
+	time.Sleep(w.pause)
+	w.f.Write(append(append([]byte{}, v...), '\n'))
+}
+func (w *fileWriter) NeedPrefix() bool { return false }
+
+func logPanicChild(args []string) error {
+	fs := flag.NewFlagSet("logpanic-child", flag.ExitOnError)
+	n := fs.Int("n", 100, "entries")
+	path := fs.String("file", "", "absolute path of the file the writer appends to")
+	pauseUs := fs.Int("pause-us", 100, "writer delay per entry")
+	text := fs.Bool("text", false, "log through Infof instead of WriteLog")
+	fs.Parse(args)
+	f, err := os.OpenFile(*path, os.O_CREATE|os.O_WRONLY|os.O_APPEND, 0644)
+	if err != nil {
+		return err
+	}
+	rogger.SetLevel(rogger.DEBUG)
+	rogger.VerifSetFlushTimeout(10 * time.Second)
+	lg := rogger.GetLogger("verifpanic")
+	lg.SetWriter(&fileWriter{f: f, pause: time.Duration(*pauseUs) * time.Microsecond})
+	func() {
+		defer tars.CheckPanic() // what every servant goroutine of the framework does: dump, flush the log, exit
+		for i := 1; i <= *n; i++ {
+			if *text {
+				lg.Infof("%d %d", 1, i)
+			} else {
+				lg.WriteLog([]byte(fmt.Sprintf("%d %d", 1, i)))
+			}
+		}
+		panic("verif: boom")
+	}()
+	return fmt.Errorf("CheckPanic returned")
+}
+
+// panicScenario runs the child and turns what it left in the file into a trace: the n logging calls returned before the
+// panic (one goroutine), the exit path requests the flush, the writes are what the file holds, the process is gone.
+func panicScenario(rng *rand.Rand, dir string, sc int) ([]tr.Ev, error) {
+	n := 5 + rng.Intn(36)
+	path := fmt.Sprintf("%s/panic-%d.log", dir, sc)
+	cmd := exec.Command(os.Args[0], "logpanic-child", "-n", fmt.Sprint(n), "-file", path, "-pause-us", fmt.Sprint(50+rng.Intn(400)),
+		fmt.Sprintf("-text=%v", rng.Intn(2) == 0))
+	cmd.Dir = dir
+	out, _ := cmd.CombinedOutput()
+	if cmd.ProcessState == nil || cmd.ProcessState.ExitCode() == 0 || cmd.ProcessState.ExitCode() == 3 {
+		return nil, fmt.Errorf("panic child did not exit through CheckPanic: %s", string(out))
+	}
+	var evs []tr.Ev
+	evs = append(evs, tr.Ev{"e": "Config", "k": 10000, "kind": "panic-exit"})
+	for i := 1; i <= n; i++ {
+		evs = append(evs, tr.Ev{"e": "LogCall", "g": 1, "i": i}, tr.Ev{"e": "LogRet", "g": 1, "i": i})
+	}
+	evs = append(evs, tr.Ev{"e": "FlushCall"})
+	if f, err := os.Open(path); err == nil {
+		scn := bufio.NewScanner(f)
+		for scn.Scan() {
+			g, i := entryOf(scn.Bytes())
+			evs = append(evs, tr.Ev{"e": "Write", "g": g, "i": i, "n": len(scn.Bytes())})
+		}
+		f.Close()
+	}
+	os.Remove(path)
+	evs = append(evs, tr.Ev{"e": "FlushRet"}, tr.Ev{"e": "Reset"})
+	return evs, nil
+}
 
 // gate: the hook between the flusher's selects. When armed the flusher is held there until released.
 type lfGate struct {
@@ -62,26 +155,86 @@ func logflushTrace(args []string) error {
 	rogger.VerifSetFlushTimeout(10 * time.Second)
 	rec = tr.New()
 	rogger.FlushLogger() // ends the flusher started by the package's init; every scenario starts its own
+	rogger.SetLevel(rogger.DEBUG)
 	lg := rogger.GetLogger("verif")
-	lg.SetWriter(&recWriter{&rec})
+	rw := &recWriter{rec: &rec}
+	lg.SetWriter(rw)
+	scratch, err := os.MkdirTemp("", "lfpanic")
+	if err != nil {
+		return err
+	}
+	defer os.RemoveAll(scratch)
 	w, err := tr.Create(*out)
 	if err != nil {
 		return err
 	}
 	lost := 0
 	for sc := 0; sc < *num; sc++ {
+		if sc%25 == 24 { // the panic exit of a real process
+			evs, err := panicScenario(rng, scratch, sc)
+			if err != nil {
+				return err
+			}
+			for _, ev := range evs {
+				w.Write(ev)
+			}
+			continue
+		}
 		rec = tr.New()
+		qcap := 10000
+		shape := rng.Intn(6)
+		if shape >= 4 {
+			qcap = 2 // the queue at its boundary: logging calls block until the flusher makes room
+		}
+		rogger.VerifSetQueueCap(qcap)
+		text := rng.Intn(2) == 0 // the formatted text path (Infof -> writeLine) or the raw one (WriteLog)
+		rw.prefix = text && rng.Intn(2) == 0
+		rec.Emit("Config", "k", qcap, "kind", fmt.Sprintf("shape%d text=%v prefix=%v", shape, text, rw.prefix))
 		rogger.VerifResetFlusher()
 		ng := 1 + rng.Intn(3)
-		shape := rng.Intn(4)
+		logOne := func(gid, i int) {
+			rec.Emit("LogCall", "g", gid, "i", i)
+			if text {
+				lg.Infof("%d %d", gid, i)
+			} else {
+				lg.WriteLog([]byte(fmt.Sprintf("%d %d", gid, i)))
+			}
+			rec.Emit("LogRet", "g", gid, "i", i)
+		}
 		logN := func(gid, from, n int) {
 			for i := from; i < from+n; i++ {
-				rec.Emit("LogCall", "g", gid, "i", i)
-				lg.WriteLog([]byte(fmt.Sprintf("%d %d", gid, i)))
-				rec.Emit("LogRet", "g", gid, "i", i)
+				logOne(gid, i)
 			}
 		}
 		switch shape {
+		case 4, 5:
+			// backlog at the boundary: the flusher is held at the gate while 1-2 goroutines log more entries than the queue
+			// holds (their calls block), then it is released; afterwards one flush
+			g.mu.Lock()
+			g.armed, g.waiting, g.release = true, make(chan struct{}), make(chan struct{})
+			wch, rch := g.waiting, g.release
+			g.mu.Unlock()
+			logN(1, 1, 1)
+			select {
+			case <-wch:
+			case <-time.After(2 * time.Second):
+				return fmt.Errorf("flusher never reached the gate")
+			}
+			var wg sync.WaitGroup
+			nl := 1 + rng.Intn(2)
+			for gid := 1; gid <= nl; gid++ {
+				wg.Add(1)
+				go func(gid, from, n int) {
+					defer wg.Done()
+					logN(gid, from, n)
+				}(gid, map[bool]int{true: 2, false: 1}[gid == 1], 3+rng.Intn(3))
+			}
+			time.Sleep(time.Duration(1+rng.Intn(3)) * time.Millisecond) // the queue fills up, the callers block
+			close(rch)
+			wg.Wait()
+			rec.Emit("FlushCall")
+			rogger.FlushLogger()
+			rec.Emit("FlushRet")
 		case 0, 1:
 			// the window: hold the flusher between its selects (queue found empty), log, request the flush, release
 			g.mu.Lock()
@@ -121,9 +274,7 @@ func logflushTrace(args []string) error {
 				go func(gid, n int, pause time.Duration) {
 					defer wg.Done()
 					for i := 1; i <= n; i++ {
-						rec.Emit("LogCall", "g", gid, "i", i)
-						lg.WriteLog([]byte(fmt.Sprintf("%d %d", gid, i)))
-						rec.Emit("LogRet", "g", gid, "i", i)
+						logOne(gid, i)
 						if pause > 0 {
 							time.Sleep(pause)
 						}
